@@ -37,6 +37,7 @@ theorem actStep_shape {s s' : St} {t : Tid} (h : actStep s t = some s') :
         split at h
         · cases h
         · cases h; exact ⟨tk, st, rest, s.seq, rfl, hp, rfl, rfl, rfl⟩
+      case refuse => cases h
       all_goals first
         | exact fin _ h rfl rfl rfl
         | (split at h <;> first
